@@ -935,6 +935,7 @@ type eerr =
 type 'a outcome =
 | Done of 'a
 | Raise of eerr
+| Partial of eerr * 'a
 
 val obind : 'a1 outcome -> ('a1 -> 'a2 outcome) -> 'a2 outcome
 
